@@ -15,7 +15,7 @@ PROFILE = {'name': 'c11', 'spec': {}, 'opts': {}, 'medium_rate': 0.15, 'shipped_
 
 
 def plan(tier):
-    return {'cases_per_shard': 450 if tier == 'quick' else 9000,
+    return {'cases_per_shard': 400 if tier == 'quick' else 9000,
             'time_cap_s': 45 if tier == 'quick' else 560}
 
 
